@@ -10,6 +10,8 @@ def run(chk):
     textrules.r01_esc(chk)
     textrules.r01_fmt(chk)
     textrules.r01_hex(chk)
+    textrules.r01_finite(chk)
+    textrules.r01_tokline(chk)
     plumbing.r05_plumb(chk, rule="R01-plumb")
     from . import c05, writertab
     c05.r05_adjacent(chk, rule="R01-adjacent")
